@@ -1,7 +1,9 @@
 (* C07/Props.v — property-level theorems only. Part A (core level) below; part B (file level: raftfs state file and
    snapshot manager over CrashFS) appends its theorems to this file.  Tags are read by bin/check. *)
 From Coq Require Import List NArith ZArith.
-From BLB Require Import Raft.Core Raft.Wire Raft.Legit Raft.NodeProofs Raft.NodeElect Raft.NodeMono C07.A_Witness C07.A_Repaired C07.A_Proofs C07.A_Wedge.
+From BLB Require Import Lib.LTS Raft.Core Raft.Wire Raft.Legit Raft.NodeProofs Raft.NodeElect Raft.NodeMono Raft.Election
+     Raft.LogMatchLists Raft.LogMatch Raft.LogMatchNodeS Raft.CompletenessCommit Raft.SnapContig Raft.SnapContigSys Raft.SnapSystem
+     C07.A_Witness C07.A_Repaired C07.A_Proofs C07.A_Wedge C07.A_NoFatal C07.A_Restart C07.A_Vote C07.A_RestartExample.
 Import ListNotations.
 Open Scope N_scope.
 
@@ -126,3 +128,76 @@ Theorem answers_below_match_are_discarded :
       handle_app_ents_resp s from su ix hi = Ret s).
 Proof. split; [exact probe_answer_index | exact low_answer_discarded]. Qed.
 Print Assumptions answers_below_match_are_discarded.
+
+(* ---------------------------------------------------------------- restart over ALL reachable states (uses C02's run-level invariants) *)
+
+(* [FULL] part A, restart_never_fatal. For every schedule of the general system of Raft/Election.v (deliveries of any message ever sent incl. InstallSnapshot to any node any number of times or never, ticks, proposals, AddNode, RemoveNode, SnapshotDone, restarts, a crash after any durable mutation of any event, no side condition on the schedule), for every node s of every reachable state and every store p that can survive at s (its current store, or the store at the crash point k of any event ev whose delivered message is well formed, which every message of the soup is): newCore on p returns a node (no Fatalf, no panic), that node is a follower without leader on a contiguous store whose commit index is its snapshot index, and it handles every message of the rejoin traffic (VoteReq, InstallSnapshot, AppEnts heartbeat, AppEnts with non-empty consecutive entries starting at prevLogIndex plus 1) without reaching any Fatalf, with or without a further crash point *)
+Theorem restart_never_fatal :
+  forall q σ0 sched σ, cinv σ0 -> run sys sys_event (sstep q) σ0 sched σ ->
+  forall s p, In s (sy_nodes σ) -> survivor s p ->
+    exists s', new_core (n_id s) (n_cfg s) p = Ret s' /\ fresh s' /\
+      forall m k', rejoin_msg m -> nf (fun _ => True) (handle_msg (with_budget (settle s') k') m).
+Proof. exact restart_never_fatal_lemma. Qed.
+Print Assumptions restart_never_fatal.
+
+(* [FULL] part A, node level behind it: newCore on ANY store with consecutive log indices (starting at 1 when there is no snapshot) never reaches a Fatalf, whatever the relation between snapshot and log *)
+Theorem new_core_never_fatal_on_any_crash_store :
+  forall id cfg p, pcontig p -> exists s', new_core id cfg p = Ret s' /\ fresh s' /\ n_id s' = id /\ n_cfg s' = cfg.
+Proof. exact new_core_never_fatal. Qed.
+Print Assumptions new_core_never_fatal_on_any_crash_store.
+
+(* [FULL] part A, node level behind it: a follower without leader on a contiguous store whose snapshot is not ahead of its commit index handles every message of the rejoin traffic without reaching a Fatalf, whatever the message claims (terms, indices, commit index, sender) *)
+Theorem rejoin_traffic_never_fatal :
+  forall s m, J s -> n_role s = Follower -> n_leader s = 0 -> rejoin_msg m -> nf (fun _ => True) (handle_msg s m).
+Proof. exact handle_msg_never_fatal. Qed.
+Print Assumptions rejoin_traffic_never_fatal.
+
+(* [FULL] part A, how the leader builds the messages of the rejoin traffic: an AppEnts with entries produced by getAppEnts, in any node state, carries entries with consecutive indices that start at prevLogIndex plus 1 (two of the three conditions rejoin_msg puts on such a message; non-emptiness needs MaximumAppendEntries of at least 1 and matchIndex below the last index and is not proved) *)
+Theorem app_ents_entries_start_after_prev :
+  forall s p pi pt cm es, get_app_ents s p = Ret (Some (AppEnts pi pt cm (Some es))) -> wf_from (pi + 1) es.
+Proof. exact get_app_ents_shape. Qed.
+Print Assumptions app_ents_entries_start_after_prev.
+
+(* [FULL] part A, crash_prefix_preserves_persistent_inv, contiguity level, every schedule of the general system: the store at the crash point k of any event has consecutive log indices (pcontig), its term is not lower and a vote cast in the same term is kept (pext); newCore on it returns a node whose store extends it in the same sense, is contiguous with the snapshot, whose commit index is the snapshot index and at most the last index, a follower with an empty outbox *)
+Theorem crash_prefix_preserves_persistent_inv :
+  forall q σ0 sched σ, cinv σ0 -> run sys sys_event (sstep q) σ0 sched σ ->
+  forall s ev k p, In s (sy_nodes σ) -> (forall m, ev = EDeliver m -> In m (sy_soup σ)) ->
+    run_event (with_budget (settle s) k) ev = Crashed p ->
+    pcontig p /\ pext (n_p s) p /\
+    exists s', new_core (n_id s) (n_cfg s) p = Ret s' /\ pext p (n_p s') /\ contig (n_p s') /\
+               n_commit s' = match p_snap (n_p s') with Some m => sn_index m | None => 0 end /\
+               n_commit s' <= last_index (n_p s') /\ n_role s' = Follower /\ n_msgs s' = [].
+Proof. exact crash_prefix_persistent_lemma. Qed.
+Print Assumptions crash_prefix_preserves_persistent_inv.
+
+(* [FULL] part A, crash_prefix_preserves_persistent_inv, log level, alphabet sstepS of C02 (fixed membership, snapshots, every step with a crash after any durable mutation followed by newCore): in every state of every run, hence right after every crashed step, every node has a ghost prefix C under which its store has the shape the four clauses of C02 rest on. The logical log C ++ log is index contiguous from 1, the snapshot names one of its positions with that entry's term and is at most the commit index, terms are non-decreasing along the logical log and bounded by the durable term. The four clauses themselves are C02's theorems log_matching_with_snapshots, leader_completeness_with_snapshots, state_machine_safety_with_snapshots, committed_entry_never_truncated_with_snapshots over the same runs *)
+Theorem crash_steps_keep_store_shape :
+  forall (bm : list nid) (be : N) (σ0 σ : sys) (sched : list sys_event),
+    cinit σ0 -> length bm = length (sy_nodes σ0) ->
+    run sys sys_event (sstepS bm be (length (sy_nodes σ0))) σ0 sched σ ->
+    forall a, In a (sy_nodes σ) -> exists C, store_inv C a.
+Proof. exact crash_steps_keep_shape_lemma. Qed.
+Print Assumptions crash_steps_keep_store_shape.
+
+(* [FULL] part A, vote_respects_snapshot for arbitrary logs, same alphabet sstepS: in every reachable state a node that holds a snapshot grants its vote (canGrantVote answers true, for any requester and any claimed last index and term) only to a candidate whose last term is above the snapshot's term, or equal to it with a last index at least the snapshot's index *)
+Theorem vote_respects_snapshot :
+  forall (bm : list nid) (be : N) (σ0 σ : sys) (sched : list sys_event),
+    cinit σ0 -> length bm = length (sy_nodes σ0) ->
+    run sys sys_event (sstepS bm be (length (sy_nodes σ0))) σ0 sched σ ->
+    forall a m from li lt, In a (sy_nodes σ) -> p_snap (n_p a) = Some m ->
+      can_grant_vote a from li lt = Ret true ->
+      sn_term m < lt \/ (lt = sn_term m /\ sn_index m <= li).
+Proof. exact vote_respects_snapshot_lemma. Qed.
+Print Assumptions vote_respects_snapshot.
+
+(* [FULL] part A, non-vacuity of the restart theorems: on node 2 of a reachable state (Raft/SnapshotExample.v t13, log 1..2) an InstallSnapshot for index 5 crashes right after the snapshot commit, the surviving store has the snapshot ahead of the stale log (not contiguous, pcontig), newCore returns a fresh node with empty log and commit index 5, and the next AppEnts (prev 5, entry 6) is appended *)
+Theorem restart_never_fatal_nonvacuous :
+  In xs (sy_nodes Raft.SnapshotExample.t13) /\ contig (n_p xs) /\ mwf xm /\
+  run_event (with_budget (settle xs) 1) (EDeliver xm) = Crashed xp /\
+  (exists m, p_snap xp = Some m /\ sn_index m = 5 /\ last_index xp = 2) /\
+  ~ contig xp /\ pcontig xp /\
+  new_core (n_id xs) (n_cfg xs) xp = Ret xs' /\ p_log (n_p xs') = [] /\ n_commit xs' = 5 /\ fresh xs' /\
+  rejoin_msg xa /\
+  exists s'', handle_msg (settle xs') xa = Ret s'' /\ length (p_log (n_p s'')) = 1%nat /\ last_index (n_p s'') = 6.
+Proof. exact restart_nonvacuous. Qed.
+Print Assumptions restart_never_fatal_nonvacuous.
